@@ -347,6 +347,50 @@ fn sweep_many_types(cyc: &Cycle, rec: &Recorder, thorough: bool) -> Tally {
     t
 }
 
+/// leap records at the very end of the i64 range (their UTC instant = count - previous correction lies beyond i64 for negative
+/// corrections): two- and three-record tables whose last record sits at i64::MAX - {0, 1, 2, 28 days}, every sign combination
+fn sweep_leap_extreme_positions(cyc: &Cycle, rec: &Recorder) -> Tally {
+    let mut tl = Tally::default();
+    let mut tables: Vec<Vec<(i64, i32)>> = vec![];
+    for c0 in [1i32, -1] {
+        for step in [1i32, -1] {
+            for k in [0i64, 1, 2, DAY28, i32::MAX as i64] {
+                tables.push(vec![(78_796_800, c0), (i64::MAX - k, c0 + step)]);
+                for step2 in [1i32, -1] {
+                    if k + DAY28 < i64::MAX / 2 {
+                        tables.push(vec![(78_796_800, c0), (i64::MAX - k - DAY28, c0 + step), (i64::MAX - k, c0 + step + step2)]);
+                    }
+                }
+            }
+        }
+        tables.push(vec![(i64::MAX, c0)]);
+        tables.push(vec![(i64::MAX - 1, c0)]);
+    }
+    for leaps in tables {
+        for rule_kind in 0..2u8 {
+            let r = guard(|| {
+                let mut t2 = Tally::default();
+                let types = base_types();
+                let trans = vec![(1_000_000_000i64, 1usize), (2_000_000_000, 0)];
+                let rule = if rule_kind == 1 { Some(MRule::Fixed(types[0])) } else { None };
+                let z = MZone { trans, types, leaps: leaps.clone(), rule };
+                let mut probes = probes_for(&z);
+                probes.extend([999_999_999, 1_000_000_000, 1_000_000_001, 1_999_999_998, 1_999_999_999, 2_000_000_000, 2_000_000_001]);
+                probes.sort();
+                probes.dedup();
+                check_zone(cyc, &z, &probes, rec, "leap_extreme_positions", &mut t2);
+                t2
+            });
+            match r {
+                Ok(t2) => tl = tl.merge(t2),
+                Err(m) => rec.violation("leap_extreme_positions", json!({"kind":"leap_extreme","leaps":leaps.iter().map(|&(a,b)| json!([a,b])).collect::<Vec<_>>()}), json!("no panic"), json!(m)),
+            }
+        }
+    }
+    rec.sub("leap_extreme_positions", json!({"zones": tl.zones, "lookups": tl.evals}));
+    tl
+}
+
 /// long call histories on one thread (state recycled by a wrapping counter or a fixed-capacity table): a lookup in zone A, N
 /// lookups in zone B, a different lookup in zone A, for N = 2^k - 2 .. 2^k + 1, k = 4..=17; A has three types, B two
 fn sweep_long_histories(cyc: &Cycle, rec: &Recorder) -> Tally {
@@ -533,6 +577,15 @@ pub fn run(args: &Args) -> i32 {
     rec.sub("corpus", json!({"distinct_corpus_zones": zones.len(), "files_not_expressible_in_the_model": skipped, "zones_checked": ct.zones, "lookups": ct.evals}));
     let total = total.merge(ct).merge(sweep_many_types(&cyc, &rec, thorough)).merge(sweep_leap_walks(&cyc, &rec, thorough));
     let total = if args.digest_mode { total } else { total.merge(sweep_long_histories(&cyc, &rec)) };
+    let total = total.merge(sweep_leap_extreme_positions(&cyc, &rec));
+    // one-signed leap tables of 2.4 million records (accumulated correction >= record spacing), shared with the C12 engine
+    let total = if args.digest_mode {
+        total
+    } else {
+        let ctx = crate::find::Ctx { cyc: &cyc, rec: &rec, prop: crate::find::Prop::C05, kf1_open: false, kf2_open: false, kf3_open: false };
+        let h = crate::leap::sweep_huge_table(&ctx, thorough);
+        Tally { evals: total.evals + h.0 + h.1, ..total }
+    };
     rec.sub("table", json!({"shapes": work.len(), "zones": total.zones, "zones_refused_as_model_predicts": total.rejected, "lookups": total.evals, "max_table_len": max_n, "all_index_sequences_up_to_len": all_seq_n}));
     rec.add(total.evals, total.nontrivial);
     rec.digest("table", total.digest);
